@@ -149,9 +149,9 @@ def replay_case(case):
         if got.shape != want.shape:
             res["violations"].append("%s: shape %s, expected %s" % (name, got.shape, want.shape))
             return
-        tol = 1e-9 * wabs + 1e-280
+        tol = 1e-9 * wabs + 1e-150
         dev = np.abs(got - want)
-        res["dev"] = max(res["dev"], float((dev / (wabs + 1e-280)).max()))
+        res["dev"] = max(res["dev"], float((dev / (wabs + 1e-150)).max()))
         bad = ~(dev <= tol)
         if bad.any():
             idx = np.unravel_index(np.argmax(np.where(bad, dev / tol, 0)), dev.shape)
@@ -218,7 +218,7 @@ def replay_case(case):
                 thr = neg * factor
                 try:
                     got = f(Pn, shells, fpts, threshold=thr, **kw)
-                    outcome = "zero" if np.all(got >= 0) and np.all(np.abs(got - np.maximum(want, 0)) <= 1e-9 * wabs + 1e-280) else "wrong values"
+                    outcome = "zero" if np.all(got >= 0) and np.all(np.abs(got - np.maximum(want, 0)) <= 1e-9 * wabs + 1e-150) else "wrong values"
                 except ValueError:
                     outcome = "raise"
                 res["n"] += 1
